@@ -55,6 +55,13 @@ func runC03(c *Ctx) {
 	var recvSeen int64 // highest V-line sequence number recv has logged
 	logger.Discard = func(r *rig.LogRecord) bool { return true }
 	logger.OnRec = func(r *rig.LogRecord) {
+		if strings.HasPrefix(r.Format, "Server changed our nick on connect") {
+			// stretch the window between reading the welcome and storing its nick
+			for k := 0; k < 50; k++ {
+				runtimeGosched()
+			}
+			time.Sleep(300 * time.Microsecond)
+		}
 		if r.Format == "<- %s" && len(r.Args) == 1 {
 			s, _ := r.Args[0].(string)
 			if strings.HasPrefix(s, ":srv V") {
